@@ -98,7 +98,8 @@ func (q *Query) Text(withModel bool) string {
 		axioms = append(axioms, "(assert (forall ((s Int)) (>= (sl.len s) 0)))", "(assert (= (sl.len 0) 0))")
 	}
 	if used["card"] {
-		axioms = append(axioms, "(assert (forall ((a (Array Int Bool))) (>= (card a) 0)))")
+		axioms = append(axioms, "(assert (forall ((a (Array Int Bool))) (>= (card a) 0)))",
+			"(assert (forall ((a (Array Int Bool)) (k Int)) (! (=> (= (card a) 0) (not (select a k))) :pattern ((card a) (select a k)))))")
 	}
 	if used["str.hasprefix"] {
 		axioms = append(axioms, "(assert (forall ((a Int)) (str.hasprefix a a)))")
